@@ -1050,6 +1050,21 @@ def wrap(tier, seed, ci, nc, count=600):
 STREAMS['wrap'] = wrap
 
 
+def wlist(tier, seed, ci, nc):
+    """every stack of depth <= 5 (quick) / 6 over {sigtools level with wrapper 1, 2 or 3, functools.wraps level}"""
+    alphabet = (1, 2, 3, 'W')
+    top = 5 if tier == 'quick' else 6
+
+    def gen():
+        for n in range(top + 1):
+            for ls in itertools.product(alphabet, repeat=n):
+                yield ('wlist', ls)
+    return _slice(gen(), ci, nc)
+
+
+STREAMS['wlist'] = wlist
+
+
 def annot(tier, seed, ci, nc, count=4000):
     rng = _rng(seed, 'annot', ci)
     for _ in range(count // nc):
